@@ -811,6 +811,60 @@ class BaseInterpreter(Generic[TContext, TEvent]):
                 return produced
         return None
 
+    @staticmethod
+    def _validate_snapshot_shape(snapshot: Dict[str, Any]) -> None:
+        """Rejects a decoded snapshot whose values have the wrong JSON type.
+
+        `status` and `context` are required, and so is `state_ids` when
+        `configuration` is absent or empty; any other key may be absent or
+        `null`. Of an actor record only what `from_snapshot` reads is checked.
+
+        Raises:
+            InvalidConfigError: Naming the first offending key.
+        """
+
+        def ids(value: Any) -> bool:
+            return isinstance(value, list) and all(
+                isinstance(state_id, str) for state_id in value
+            )
+
+        def mapping(value: Any, item: Callable[[Any], bool]) -> bool:
+            return isinstance(value, dict) and all(map(item, value.values()))
+
+        def actor(record: Any) -> bool:
+            return (
+                isinstance(record, dict)
+                and isinstance(record.get("src"), (str, type(None)))
+                and isinstance(record.get("snapshot"), dict)
+            )
+
+        shape = {
+            "status": (lambda v: isinstance(v, str), "a string"),
+            "context": (lambda v: isinstance(v, dict), "an object"),
+            "configuration": (ids, "a list of state ids"),
+            "state_ids": (ids, "a list of state ids"),
+            "history": (lambda v: mapping(v, ids), "an object of id lists"),
+            "actors": (
+                lambda v: mapping(v, actor),
+                "an object of records with an object 'snapshot' and a "
+                "string or null 'src'",
+            ),
+            "system": (
+                lambda v: mapping(v, lambda name: isinstance(name, str)),
+                "an object of actor ids",
+            ),
+        }
+        required = {"status", "context"}
+        if not snapshot.get("configuration"):
+            required.add("state_ids")
+        for key, (check, expected) in shape.items():
+            value = snapshot.get(key)
+            if not check(value) and (value is not None or key in required):
+                raise InvalidConfigError(
+                    f"Snapshot key '{key}' must be {expected}, got "
+                    f"{value!r:.80}."
+                )
+
     @classmethod
     def from_snapshot(
         cls: Type["BaseInterpreter[Any, Any]"],
@@ -843,8 +897,8 @@ class BaseInterpreter(Generic[TContext, TEvent]):
         Raises:
             StateNotFoundError: If a state ID from the snapshot cannot be found
                 in the provided machine definition.
-            InvalidConfigError: If the snapshot string is not valid JSON, or
-                does not decode to a JSON object.
+            InvalidConfigError: If the snapshot string is not valid JSON, does
+                not decode to a JSON object, or a value has the wrong shape.
         """
         logger.info(
             "🔄 Restoring interpreter for machine '%s' from snapshot...",
@@ -866,6 +920,11 @@ class BaseInterpreter(Generic[TContext, TEvent]):
                 f"Snapshot must decode to a JSON object, got "
                 f"{type(snapshot).__name__}."
             )
+        # 🛡️ Check the shape before anything is rebuilt. An object lacking
+        #    `status`/`context`, or carrying a wrongly typed value, used to
+        #    escape as a raw KeyError/TypeError/AttributeError or to be
+        #    accepted, yielding an interpreter whose status is `5`.
+        cls._validate_snapshot_shape(snapshot)
 
         # 🧪 Create a new instance of the correct interpreter class (sync/async)
         interpreter = cls(machine)
